@@ -61,7 +61,9 @@ def show(e) -> str:  # noqa: PLR0911, PLR0912
     if k == "choice":
         return "(" + " | ".join(show(x) for x in e[1]) + ")"
     if k == "group":
-        return (f"#{e[2]} = " if e[2] else "") + "(" + show(e[1]) + ")"
+        # a sequence/choice prints its own parentheses (= the Group the front end builds for them)
+        inner = show(e[1]) if e[1][0] in ("seq", "choice") else "(" + show(e[1]) + ")"
+        return (f"#{e[2]} = " if e[2] else "") + inner
 
     def arg(x):
         s_ = show(x)
@@ -655,3 +657,80 @@ def history_contents(tokens, pre: int = 3):
     b, _ = run(0, list("abc"[:pre]), False)
     f = lambda st: None if st is None else "".join(reversed(st))  # noqa: E731
     return f(a), f(b)
+
+
+# ---------------------------------------------------------------- optimizer-targeted templates (C02)
+
+def gen_skip_template(rng: random.Random):
+    """what the `skip` pass rewrites, in a rule where it applies, followed by an observer; stop strings
+    with overlaps and shared prefixes"""
+    pool = ["ab", "ba", "aa", "abc", "bc", "cb", "a", "b", "bca", "ca"]
+    stops = rng.sample(pool, rng.choice([2, 2, 3, 4]))
+    alts = [("str", x) for x in stops]
+    if rng.random() < 0.3:
+        # one of the stops reached through a rule reference (the pass inlines through identifiers)
+        rules_extra = {"st": (rng.choice(["", "_"]), ("choice", alts[:2]) if len(alts) > 2 else alts[0])}
+        alts = [("id", "st", None)] + (alts[2:] if len(alts) > 2 else alts[1:])
+    else:
+        rules_extra = {}
+    inner = ("group", ("choice", alts), None) if len(alts) > 1 else alts[0]
+    skipper = ("rep", ("group", ("seq", [("not", inner), ("id", "ANY", None)]), None))
+    tail = rng.choice([[("opt", ("group", ("choice", [("str", x) for x in stops]), None)), ("rep", ("id", "ANY", None))],
+                       [("id", "w", None), ("rep", ("id", "ANY", None))],
+                       [("id", "EOI", None)], []])
+    rules = {"r": (rng.choice(["@", "$", "@", ""]), ("seq", [skipper, *tail]) if tail else skipper),
+             "w": ("", ("choice", [("str", x) for x in stops])), **rules_extra}
+    if rng.random() < 0.4:
+        rules["WHITESPACE"] = ("_", ("str", " "))
+    return rules
+
+
+def gen_squash_template(rng: random.Random):
+    """what `squash_choice` rewrites: literals / ranges / case-insensitive literals / built-in classes with
+    shared prefixes, in every order, followed by an observer"""
+    pool = [("str", "a"), ("str", "ab"), ("str", "abc"), ("str", "b"), ("str", "ba"), ("ci", "a"), ("ci", "Ab"), ("ci", "aB"),
+            ("range", "a", "b"), ("range", "b", "c"), ("id", "ASCII_DIGIT", None), ("id", "ASCII_HEX_DIGIT", None),
+            ("str", "1a"), ("str", "A"), ("id", "NEWLINE", None), ("str", "")]
+    alts = rng.sample(pool, rng.choice([2, 3, 3, 4, 5]))
+    if rng.random() < 0.25:
+        alts = alts[:1] + [("group", ("choice", alts[1:3]), None)] + alts[3:] if len(alts) > 3 else alts
+    ch = ("group", ("choice", alts), None)
+    body = rng.choice([[ch, ("rep", ("id", "ANY", None))], [ch, ("id", "EOI", None)], [("rep", ch), ("id", "EOI", None)], [ch, ch]])
+    rules = {"r": (rng.choice(["", "@"]), ("seq", body))}
+    if rng.random() < 0.3:
+        rules["WHITESPACE"] = ("_", ("choice", [("str", " "), ("str", "\t"), ("id", "NEWLINE", None)]))
+    return rules
+
+
+# ---------------------------------------------------------------- modifier chains (C04)
+
+def modifier_chain(mods, ws_silent: bool = True):
+    """r0 = m0{ "x" ~ r1 ~ "y" } … r3 = m3{ "a" ~ "b" } with WHITESPACE defined: which gaps accept trivia, and
+    which pairs are visible, is decided by the whole chain of modifiers above each gap"""
+    lits = [("x", "y"), ("p", "q"), ("u", "v")]
+    rules = {}
+    n = len(mods)
+    for i, m in enumerate(mods):
+        if i < n - 1:
+            a, b = lits[i]
+            rules[f"r{i}"] = (m, ("seq", [("str", a), ("id", f"r{i + 1}", None), ("str", b)]))
+        else:
+            rules[f"r{i}"] = (m, ("seq", [("str", "a"), ("str", "b")]))
+    rules["WHITESPACE"] = ("_" if ws_silent else "", ("str", " "))
+    return rules
+
+
+def chain_inputs(n: int):
+    """the sentence of the chain with a blank inserted at every subset of its gaps"""
+    lits = [("x", "y"), ("p", "q"), ("u", "v")]
+    word = "".join(lits[i][0] for i in range(n - 1)) + "ab" + "".join(lits[i][1] for i in reversed(range(n - 1)))
+    out = []
+    gaps = len(word) - 1
+    for mask in range(1 << gaps):
+        t = word[0]
+        for i in range(gaps):
+            if mask >> i & 1:
+                t += " "
+            t += word[i + 1]
+        out.append(t)
+    return out
